@@ -68,8 +68,8 @@ type syncNode struct {
 	L, S    uint64 // local head at the start, manifest height
 	h       *protocol.IdenaGossipHandler
 	sh      *protocol.IdenaGossipHandler // the serving node's handler
-	peers   map[string]*protocol.VerifPeer
-	speers  map[string]*protocol.VerifPeer // the serving side's peer objects (one per connection)
+	peers   map[string]*protocol.VerifSyncPeer
+	speers  map[string]*protocol.VerifSyncPeer // the serving side's peer objects (one per connection)
 	plans   map[string]*plan
 	names   []string
 	forked  mapset.Set
@@ -110,8 +110,8 @@ func (s *syncNode) boot(db dbm.DB) {
 		s.ip.override = old.override
 	}
 	s.h = protocol.VerifNewSyncHandler(s.n.Chain)
-	s.peers = map[string]*protocol.VerifPeer{}
-	s.speers = map[string]*protocol.VerifPeer{}
+	s.peers = map[string]*protocol.VerifSyncPeer{}
+	s.speers = map[string]*protocol.VerifSyncPeer{}
 	s.forked = mapset.NewSet()
 	s.sm = state.NewSnapshotManager(db, s.n.App.State, s.n.Bus, s.ip, s.n.Cfg)
 	s.fs = nil
